@@ -326,6 +326,8 @@ class State:
                 self.scalars[nm] = val
                 self.level[nm] = len(self.loopvars)
                 self.glevel[nm] = len(self.guards)
+                if getattr(self, "_plain_log", None) is not None:
+                    self._plain_log.add(nm)
             else:
                 cur = self.scalars.get(nm)
                 if cur is None:
@@ -347,6 +349,9 @@ class State:
             lvs = tuple(lv for lv, _, _ in self.loopvars)
             idx_syms = set().union(*[x.free_symbols for x in idx]) if idx else set()
             ckey = (base, tuple(str(x) for x in idx))
+            if self.guards and op == "=" and (base in self.alias or base not in self.local_arrays or not self.ex.opaque_merge) and self.glevel.get(ckey, -1) < len(self.guards) and any(tuple(str(x) for x in pat) == ckey[1] for pat, _, _ in self.cells.get(base, [])):
+                # the cell already has a value from outside the condition: afterwards it would be a mixture
+                raise AnalysisError(f"{self.ex.where}::{self.fname}: plain store into '{base}' under a data-dependent condition is outside the modelled fragment")
             if self.guards and op == "=" and (base in self.alias or base not in self.local_arrays):
                 raise AnalysisError(f"{self.ex.where}::{self.fname}: plain store into '{base}' under a data-dependent condition is outside the modelled fragment")
             if self.guards and op in ("+=", "-="):
@@ -523,22 +528,50 @@ class State:
                     pushed += 1
                     continue
                 before = dict(self.scalars)
-                self.guards.append(self.cond_factor(ks[0], True))
+                g_ = self.cond_factor(ks[0], True)
+                log_outer = getattr(self, "_plain_log", None)
+                self._plain_log = set()
+                self.guards.append(g_)
                 self.block([then])
                 self.guards.pop()
+                plain_t, s_then = self._plain_log, dict(self.scalars)
+                plain_e, s_else = set(), None
                 if els is not None:
+                    # the else arm starts from the values before the statement, except for what the then arm
+                    # accumulated (already weighted by its indicator)
+                    for nm_ in plain_t:
+                        if nm_ in before:
+                            self.scalars[nm_] = before[nm_]
+                        else:
+                            self.scalars.pop(nm_, None)
+                    self._plain_log = set()
                     self.guards.append(self.cond_factor(ks[0], False))
                     self.block([els])
                     self.guards.pop()
-                # scalars plainly assigned under the condition have no single value afterwards
-                for nm_, v_ in list(self.scalars.items()):
-                    if before.get(nm_) is not v_ and nm_ not in before:
-                        pass
-                    elif nm_ in before and before[nm_] is not v_ and self.level.get(nm_) == len(self.loopvars) and not isinstance(v_, sp.Basic):
-                        del self.scalars[nm_]
-                    elif self.ex.opaque_merge and nm_ in before and before[nm_] is not v_:
+                    plain_e, s_else = self._plain_log, dict(self.scalars)
+                self._plain_log = log_outer
+                # a scalar plainly assigned under the condition: afterwards it is the indicator-weighted mixture of
+                # the two arms (the value before the statement where an arm does not assign it)
+                for nm_ in plain_t | plain_e:
+                    if log_outer is not None:
+                        log_outer.add(nm_)
+                    if self.ex.opaque_merge:
                         self.ex._fresh += 1
                         self.scalars[nm_] = sp.Symbol(f"{nm_}@merge{self.ex._fresh}")
+                        continue
+                    t_ = s_then.get(nm_) if nm_ in plain_t else None
+                    e_ = (s_else.get(nm_) if s_else is not None and nm_ in plain_e else None)
+                    if t_ is None:
+                        t_ = before.get(nm_)
+                    if e_ is None:
+                        # not assigned in the else arm (or no else arm): what it was before, plus what that arm accumulated
+                        e_ = (s_else if s_else is not None else before).get(nm_) if nm_ not in plain_e else e_
+                    if t_ is None or e_ is None:
+                        # assigned in one arm only and undefined before: a temporary of that arm
+                        self.scalars[nm_] = t_ if t_ is not None else e_
+                        continue
+                    self.scalars[nm_] = t_ if t_ == e_ else sp.expand(g_ * t_ + (1 - g_) * e_)
+                    self.level[nm_] = min(self.level.get(nm_, len(self.loopvars)), len(self.loopvars))
                 continue
             if k == "CallExpr":
                 nm = cast.callee_name(s)
